@@ -492,7 +492,7 @@ func init() {
 		ID: "C20", Level: "model_checking",
 		Technique: "stateless model checking of the connection cache under concurrent first use: N regions on one address x N(+1) concurrent callers x all schedules with <=2 deviations; dial and open-connection counters at the simulated server",
 		Rule: "N in {2,3,4} regions hosted at one address, first used by N or N+1 concurrent callers from a cold cache, followed by nothing / a later discovery of another region on the same server / a connection reset and a second burst; every schedule with <=2 deviations (<=1 for the largest quick units). Oracle: the server is dialled once per connection generation (1, or 2 after the reset), never two connections open to one address at the same time, every request succeeds. Non-trivial = at least one non-default scheduling choice.",
-		Assumptions: []string{"tier L: a dial = the first Dial call on a connection object created by the client"},
+		Assumptions: []string{"tier L: a dial = the first Dial call on a connection object created by the client", "tier W: real region clients and a dialer that fails like net.Dialer when its context ends; dial starts are counted; two regions first used by three callers while the first region splits server-side at every scheduling step (an interrupt) plus <=1 (thorough 2) deviations"},
 		Quick:       150 * time.Second, Thorough: 25 * time.Minute,
 		Units: c20Units,
 	})
